@@ -255,6 +255,9 @@ type SendOpts struct {
 	// Unsolicited, if set, returns replies that are sent right after the file
 	// list although nobody asked for them (a hostile sender).
 	Unsolicited func(sorted []Entry, seed int32) []Unsol
+	// Withhold, if set and true for a requested entry, makes the (hostile)
+	// sender never answer that request; it still ends the phases properly.
+	Withhold func(e *Entry) bool
 }
 
 // Unsol is a reply nobody requested.
@@ -376,6 +379,9 @@ func Send(w *Wire, o SendOpts) (res *SendResult, err error) {
 			return res, fmt.Errorf("receiver requested index %d outside the list of %d", rq.Idx, len(sorted))
 		}
 		e := &sorted[rq.Idx]
+		if o.Withhold != nil && o.Withhold(e) {
+			continue
+		}
 		data := o.Data[e.Name]
 		var head SumHead
 		var toks []Tok
